@@ -188,6 +188,11 @@ class mm_reader {
                 i -= 1;
                 j -= 1;
 
+                precondition(
+                        0 <= static_cast<ptrdiff_t>(i) && static_cast<ptrdiff_t>(i) < n &&
+                        0 <= static_cast<ptrdiff_t>(j) && static_cast<ptrdiff_t>(j) < m,
+                        format_error("index is out of range"));
+
                 v = read_value<Val>(is);
 
                 if (row_beg <= i && i < row_end) {
